@@ -9,6 +9,8 @@ CONSTANTS
  FixAllParts = TRUE
  FixHashAfterStore = TRUE
  DevIgnoreCompleteErr = TRUE
+ DevNegAck = FALSE
+ DevEmptyAck = FALSE
 INIT Init
 NEXT Next
 INVARIANTS C32_Stored C32_Acked
